@@ -292,3 +292,91 @@ func StaleCancel(d *fw.Driver, res *fw.Result, seed int64, kind string, base int
 	time.Sleep(20 * time.Millisecond)
 	return CheckEpoch(d, res, e.RT.Events(), sig)
 }
+
+// ReverseSubAfterLoss: a reconnecting client serves a reverse subscription; the connection is lost and the
+// handler (which does not watch its context) emits a value while the client is between connections; the
+// client redials.  Reverse subscriptions on the new connection must be answered like any other reverse call:
+// the goroutine that forwards channel values belongs to the client, not to one of its connections.
+func ReverseSubAfterLoss(res *fw.Result, seed int64, base int) error {
+	e, err := scen.NewEnv(seed+int64(base), 0, jsonrpc.WithReverseClient[RevAPI]("Rev"))
+	if err != nil {
+		return err
+	}
+	defer e.Close()
+	rs := newRS(e.RT)
+	e.Srv.Register("RS", rs)
+	ctx, cancel := context.WithCancel(context.Background())
+	defer cancel()
+	api := &FwdAPI{}
+	h := &RevH{ID: 9, C: newCtl(), Fwd: api}
+	closer, err := jsonrpc.NewMergeClient(ctx, e.WSURL(), "RS", []interface{}{api}, nil,
+		jsonrpc.WithClientHandler("Rev", h), jsonrpc.WithReconnectBackoff(40*time.Millisecond, 80*time.Millisecond))
+	if err != nil {
+		return err
+	}
+	defer scen.WithTimeout(3*time.Second, closer)
+	sig := "reverse subscription after a loss"
+	c := map[string]interface{}{"scenario": "reverse-sub-after-loss"}
+	run := func(tok int) (Out, error) {
+		cctx, cc := context.WithTimeout(ctx, 8*time.Second)
+		defer cc()
+		return api.Run(cctx, Spec{Tok: tok, Method: "Ticks", N: 1, Bg: true})
+	}
+	arg1, arg2 := (base+1)*1000, (base+2)*1000
+	h.C.feed(arg1) <- 11
+	o, err := run(base + 1)
+	if err != nil || len(o.Calls) != 1 || o.Calls[0].Err != "" || o.Calls[0].Val != 11 {
+		return fmt.Errorf("reverse-sub-after-loss: the first reverse subscription did not work: %+v %v", o, err)
+	}
+	// the connection goes away and stays away for a moment; meanwhile the old producer emits
+	e.PX.SetRefuse(true)
+	n0 := e.PX.Accepted()
+	e.PX.Cut(0, "rst")
+	time.Sleep(30 * time.Millisecond)
+	h.C.feed(arg1) <- 12
+	h.C.feed(arg1) <- 13
+	time.Sleep(60 * time.Millisecond)
+	e.PX.SetRefuse(false)
+	healed := false
+	for w := 0; w < 400 && !healed; w++ {
+		if e.PX.Accepted() > n0 {
+			if v, err := api.Add(20, 22); err == nil && v == 42 {
+				healed = true
+				break
+			}
+		}
+		time.Sleep(5 * time.Millisecond)
+	}
+	if !healed {
+		res.Add(fw.Finding{Kind: "monitor", Signature: sig + " no heal", Detail: "the client did not work again after the loss", Case: c})
+		close(h.C.feed(arg1))
+		return nil
+	}
+	// an ordinary reverse call works …
+	if o, err := func() (Out, error) {
+		cctx, cc := context.WithTimeout(ctx, 4*time.Second)
+		defer cc()
+		return api.Run(cctx, Spec{Tok: base + 3, Method: "Ident", N: 1})
+	}(); err != nil || len(o.Calls) != 1 || o.Calls[0].Err != "" {
+		res.Add(fw.Finding{Kind: "monitor", Signature: sig + " plain reverse call fails", Detail: fmt.Sprintf("after the reconnect a plain reverse call failed: %+v %v", o, err), Case: c})
+	}
+	// … and so must a reverse subscription
+	h.C.feed(arg2) <- 21
+	done := make(chan struct{})
+	var o2 Out
+	var err2 error
+	go func() { defer close(done); o2, err2 = run(base + 2) }()
+	select {
+	case <-done:
+		if err2 != nil || len(o2.Calls) != 1 || o2.Calls[0].Err != "" || o2.Calls[0].Val != 21 {
+			res.Add(fw.Finding{Kind: "monitor", Signature: sig + " not answered", Detail: fmt.Sprintf("after the reconnect a reverse subscription failed: %+v %v", o2, err2), Case: c})
+		}
+	case <-time.After(7 * time.Second):
+		res.Add(fw.Finding{Kind: "monitor", Signature: sig + " not answered", Detail: "a reverse subscription made on the re-established connection was never answered (no response frame for its request): the forwarding goroutine of the client ended with the previous connection", Case: c})
+	}
+	close(h.C.feed(arg1))
+	close(h.C.feed(arg2))
+	res.Count("reverse-sub-after-loss")
+	res.Eval(true, []interface{}{"reverse-sub-after-loss"})
+	return nil
+}
